@@ -150,6 +150,27 @@ class Ctx:
             print("  tlc %-28s %6.1fs  %d states" % (name, secs, info["distinct"]), file=sys.stderr)
         return info
 
+    def tlapm(self, module, timeout=900):
+        """Check the proofs of a module with the TLA+ proof system.  Returns the number of obligations;
+        anything but "All N obligations proved" is inconclusive (a statement about the model, never a violation)."""
+        out = os.path.join(self.scratch, module + ".tlapm.out")
+        t = time.time()
+        with open(out, "w") as fh:
+            p = subprocess.run(["timeout", str(timeout), "tlapm", "--threads", str(max(2, NCPU - 4)), "--cache-dir",
+                                os.path.join(self.scratch, "tlacache-" + module), module + ".tla"],
+                               cwd=self.specdir, stdout=fh, stderr=subprocess.STDOUT)
+        txt = open(out, errors="replace").read()
+        mo = re.search(r"All (\d+) obligations? proved", txt)
+        if p.returncode != 0 or not mo:
+            raise Inconclusive("tlapm %s: proofs not checked (rc=%d):\n%s" % (module, p.returncode, txt[-2000:]))
+        n = int(mo.group(1))
+        self.tlc_runs.append({"name": "tlapm_" + module, "module": module, "cfg": "(tlapm proof)", "overrides": {},
+                              "generated": 0, "distinct": 0, "seconds": round(time.time() - t, 1), "rc": 0,
+                              "obligations_proved": n})
+        if os.environ.get("VERIF_VERBOSE"):
+            print("  tlapm %-26s %6.1fs  %d obligations" % (module, time.time() - t, n), file=sys.stderr)
+        return n
+
     def collect_coverage(self, out):
         """VERIF_COVERAGE=1: keep, per expression location of the specification, the largest evaluation count
         seen in any TLC run of this check (tools/coverage.py reports the locations that stay at 0)."""
